@@ -229,6 +229,44 @@ CLAIMED["C03"] = dict(
         "harness, python oracle. No axioms.",
    technique="Rocq loop-invariant proof that a GC pass preserves the refinement relation (all states, all ranges); differential correspondence on GC histories incl. directory contents",
    design="6/C03")
+CLAIMED["C06"] = dict(
+   text="Theorems (coq/props/C06.v), crash model = SIGKILL keeps completed writes and loses memory; in the bucket model the directory left by a kill "
+        "is dir_of b rm (data files as flushed so far, hint splits already dumped minus ANY set rm of files -- which also covers a dump caught "
+        "between temp file and rename --, tree image if any) and start-up is bucket.open on it. (1) C06_kill_after_flush: for ALL states reachable "
+        "by client operations and restarts in which every write buffer is empty (right after a flush, so every acknowledged write is durable), ANY "
+        "subset of hint files present, tree image absent: start-up is not refused, the invariant is re-established and every live key reads exactly "
+        "its last write; deleted keys stay deleted (re-use of the C02 machinery: start-up is proved on ANY prefix of a chunk's hint files + rescan of "
+        "the tail). (2) C06_refused_iff_partial_block: for EVERY directory state start-up refuses exactly when an existing data file's size is not "
+        "a multiple of 256. (3) C06_read_is_checked: a positional read returns a record only after size limits and CRC over exactly the returned "
+        "bytes matched (never a torn value, up to CRC collisions). (4) the general clause (kill at ANY moment) is REFUTED for the code as it stands: "
+        "C06_hint_ahead_of_data_refuted (known finding F10) -- a hint split dumped while its records are still buffered makes a durable key answer "
+        "an error after the kill; witness evaluated on the model. Tie to the code: crash suite -- the real store is snapshotted at every file-system "
+        "mutation point (data append/flush, hint tmp/rename, tree tmp/rename/remove, collision and GC-state writes) of seeded histories, plus torn "
+        "variants of the last append (every 256-byte boundary and unaligned cuts); each snapshot is reopened in a FRESH process and every key read; "
+        "python oracle: value really written for that key, at least as new as the last flushed write, or explicit refusal only for a torn tail "
+        "(1140 snapshots per quick run); bucket.open itself is tied to the code by the C02 correspondence.",
+   note="PARTIAL: kills with unflushed data, with a tree image on disk, and torn appends are decided by the crash suite + oracle, not by theorem; "
+        "F10 is an open finding. fsync / page-cache semantics are not modelled (completed write = durable). Trusted: Coq kernel, harness "
+        "(verifPoint snapshots, fresh-process reopen), python oracle. No axioms.",
+   technique="Rocq proof of start-up on the directory left by a kill at a flushed moment (any subset of hint files) + refusal characterisation + read soundness; refutation witness; crash-point enumeration on the real store with fresh-process reopen",
+   design="6/C06")
+CLAIMED["C07"] = dict(
+   text="Theorems (coq/props/C07.v): (1) C07_record_step_keeps_invariant / C07_invariant_means_same_reads -- the GC loop invariant (proofs/GcView.v) is "
+        "preserved by EVERY per-record step (drop, copy, destination switch with truncation, in-place overwrite) and implies that every key reads "
+        "its pre-GC entry and that no data write of the pass has touched a record the index references or that is still to be processed: inside "
+        "the running process the pass is safe at every record boundary, for all states, ranges and records. (2) ACROSS A KILL the property is "
+        "REFUTED for the code as it stands: C07_stale_tail_refuted (known finding F4) -- layout [J1 K1][K2 K3][J2 M][Z], gc(0,2), killed when "
+        "files 0 and 1 are done: the in-place rewritten file 0 holds K3 and, behind it, the stale K1; the rebuilt index makes key K, never "
+        "written during the pass, revert from k3 to k1. Witness evaluated on an explicit kill model (pass stopped after the n-th copy or after k "
+        "source files, files scanned in offset order, bucket.open on the remains). Tie to the code: crash suite over GC passes -- snapshots at "
+        "every mutation point inside a pass (each relocated-record append, truncate, source clear, hint dump/clear, GC-state write; after a clean "
+        "restart so that a tree image exists) + torn variants of the last relocated record, fresh-process reopen, python oracle 'every key not "
+        "written during the pass reads its pre-GC value' (about 590 snapshots per quick run); the F4 class is recorded by mutation point and kind.",
+   note="PARTIAL: no positive crash theorem beyond the in-process invariant -- the on-disk rebuild after a kill inside a pass is decided by the "
+        "crash suite + oracle; F4 is an open finding (a candidate repair exists as model flag gc_truncates_after_inplace but changes which files "
+        "an emptied range leaves behind). The kill model is validated by the witness only. Trusted: Coq kernel, harness, python oracle. No axioms.",
+   technique="Rocq loop-invariant proof for every step of a pass (in-process safety) + refutation witness on an explicit kill model; crash-point enumeration inside GC on the real store",
+   design="6/C06-C07")
 NOT_YET = {}
 props = [json.loads(l) for l in open(os.path.join(V, "properties.jsonl"))]
 checks = []
